@@ -74,12 +74,12 @@ where
     let mut revmap = vec![Ix::default(); g.node_bound()];
     for (ix, &old_ix) in toposort.iter().enumerate() {
         let ix = Ix::new(ix);
-        revmap[old_ix.index()] = ix;
+        revmap[g.to_index(old_ix)] = ix;
         let iter = g.neighbors_directed(old_ix, Direction::Incoming);
         let new_ix: Ix = res.add_node_with_capacity(iter.size_hint().0);
         debug_assert_eq!(new_ix.index(), ix.index());
         for old_pre in iter {
-            let pre: Ix = revmap[old_pre.index()];
+            let pre: Ix = revmap[g.to_index(old_pre)];
             res.add_edge(pre, ix, ());
         }
     }
